@@ -81,14 +81,16 @@ def eigh_steps(rng, steps, src="h", exact=True, kind="abelian"):
         steps.append(rel("same", "C11.eigh.reconstructs", src, "vwv"))
 
 
-def solve_steps(rng, steps, kind):
+def solve_steps(rng, steps, kind, even_matrix=False):
     steps.append({"op": "matmul", "in": ["A", "x0"], "out": ["b"], "args": {}})
     steps.append({"op": "solve", "in": ["A", "b"], "out": ["xs"], "args": {}, "entry": rng.choice(["symmray", "autoray"])})
     steps.append({"op": "matmul", "in": ["A", "xs"], "out": ["Axs"], "args": {}})
     steps.append(rel("same", "C11.solve.satisfies", "Axs", "b"))
     steps.append({"op": "observe", "in": ["A", "b", "xs"], "out": ["oso"], "args": {"what": "solve"}})
-    if kind == "abelian":
+    if kind == "abelian" or even_matrix:
+        # (fermionic: for a matrix of even parity; odd-parity matrices are the known finding F15)
         steps.append(rel("same", "C12.solve.equals_dense_solution", "xs", "x0"))
+    if kind == "abelian":
         steps.append({"op": "observe", "in": ["A", "b", "xs"], "out": ["osd"], "args": {"what": "solution"}})
 
 
@@ -143,7 +145,7 @@ def programs(seed, n, syms=gen.SYMS, kinds=("abelian", "fermionic"), tids=None, 
                             dtype="complex128" if rng.random() < 0.4 else "float64", sparse=0.3,
                             phases=0.4 if kind == "fermionic" else 0.0, oddpos=rng.randint(11, 19), start=1)
         inputs["x0"] = x0
-        solve_steps(rng, steps, kind)
+        solve_steps(rng, steps, kind, even_matrix=gen.D.parity(sym, tuple(A["charge"])) == 0)
         # the zero matrix (no stored block) and a zero vector: norm 0
         zm = dict(inputs["h"], drop=list(range(len(gen.D.valid_sectors(sym, inputs["h"]["ix"], tuple(inputs["h"]["charge"]))))))
         zm.pop("phases", None)
